@@ -330,3 +330,50 @@ def c15_crash(files_after, crashed, inputs, originals, fixed_alone):
         elif not (t == originals[p]) and not (t == fixed_alone[p]):
             out.append({"kind": "crash-half-written", "detail": {"file": p, "content": t, "original": originals[p], "fixed": fixed_alone[p]}})
     return out
+
+
+def insert_line(doc, i, line):
+    """doc with `line` (no newline inside) inserted before 0-based line index i"""
+    lines = split_lines(doc)
+    return "\n".join(lines[:i] + [line] + lines[i:])
+
+
+def c11_pipeline(fails_d, fails_p, pragma_errs_p, i, command, n, named_ids, wellformed, tok_d, tok_p):
+    """fails_*: 5-tuples (line, col, ID, name, extra); pragma inserted before 0-based line i
+    (it is line i+1 of the new document).  tok_*: [(name, line, col, text-with-position-masked)]
+    or None when a parse failed."""
+    out = []
+    p_line = i + 1
+
+    def shift(ln):
+        return ln + 1 if ln >= p_line else ln
+
+    expected = []
+    for f in fails_d:
+        ln = shift(f[0])
+        covered = False
+        if wellformed and f[2].lower() in named_ids:
+            if command == "disable-next-line":
+                covered = ln == p_line + 1
+            else:
+                covered = p_line + 1 <= ln <= p_line + n
+        if not covered:
+            expected.append((ln,) + tuple(f[1:]))
+    got = [tuple(f) for f in fails_p]
+    if sorted(got) != sorted(expected):
+        extra = [list(x) for x in got if x not in expected]
+        missing = [list(x) for x in expected if x not in got]
+        out.append({"kind": "suppression-differs", "detail": {"unexpected": extra[:6], "missing": missing[:6]}})
+    if wellformed and pragma_errs_p:
+        out.append({"kind": "wellformed-pragma-reported", "detail": {"errors": [list(e) for e in pragma_errs_p][:3]}})
+    if (not wellformed) and not pragma_errs_p:
+        out.append({"kind": "malformed-pragma-not-reported", "detail": {}})
+    if tok_d is not None and tok_p is not None:
+        if len(tok_d) != len(tok_p):
+            out.append({"kind": "pragma-visible-to-parser", "detail": {"without": [t[0] for t in tok_d], "with": [t[0] for t in tok_p]}})
+        else:
+            for a, b in zip(tok_d, tok_p):
+                if a[0] != b[0] or (a[1] and shift(a[1]) != b[1]) or a[2] != b[2] or not (a[3] == b[3]):
+                    out.append({"kind": "pragma-visible-to-parser", "detail": {"without": list(a), "with": list(b)}})
+                    break
+    return out
